@@ -37,8 +37,12 @@ CLAIMED.update({
             "TLA+ design model + TLC schedule export + real-code execution + TLC trace validation (observer)", "7/C12"),
     "C13": ("swapfsm", "model_checking", FSM_TEXT + " For this property: anchor persisted before the pubkey leaves; never changes; no claim HTLC without it (Liquid configurations).", FSM_NOTE,
             "TLA+ design model + TLC schedule export + real-code execution + TLC trace validation (observer)", "7/C13"),
-    "C14": ("swapfsm", "model_checking", FSM_TEXT + " For this property: every record reloaded at restart equals (digest of the full JSON of the state machine) the last record written; the continuation is compared with the model's prediction.", FSM_NOTE,
-            "TLA+ design model + TLC schedule export + real-code execution + TLC trace validation (observer)", "7/C14"),
+    "C14": ("combo(swapfsm+record)", "model_checking", FSM_TEXT + " For this property (reachable records): every record reloaded at restart equals (digest of the full JSON of the state machine) the last record written; the continuation is compared with the model's prediction. "
+            "Arbitrary field values (engine record): Record.tla models the persisted swap record as 70 fields x boundary value classes and the bbolt store as a state machine; TLC checks the codec lemma on a covering set (all classes of all fields; cross products heights x anchor flag, "
+            "error x cancel fields, message presence, state x type x role) and P_C14_roundtrip / P_C14_response on all operation sequences over 2 ids; every exported record and sequence plus VERIF_SEED random ones is executed on the real bbolt store with real SwapStateMachine values, the "
+            "database reopened, every returned record compared field by field, and RecordTrace judges every line with the same operators.",
+            FSM_NOTE + " Record part: value classes, not all values; exceptions E1-E4 (LastErr persisted as string, invalid UTF-8, process state, nil = empty byte slice) are stated in the spec header.",
+            "TLA+ design model + Record.tla store/codec model; TLC export; real-code execution (real bbolt store); TLC trace validation", "7/C14"),
     "C15": ("swapfsm", "model_checking", FSM_TEXT + " For this property: at most one successful opening broadcast per swap, no payment after a persisted cancel, re-sent requests/agreements byte-identical.", FSM_NOTE,
             "TLA+ design model + TLC schedule export + real-code execution + TLC trace validation (observer)", "7/C15"),
     "C17": ("swapfsm", "model_checking", FSM_TEXT + " For this property: after the clock passed the negotiation timeout and all due timers fired, requester / swap-out responder must be cancelled and the peer told - also after restarts.", FSM_NOTE,
@@ -211,11 +215,12 @@ def main():
             dict(name="route", path="engines/route.py", serves_properties=["C24", "C04", "C05"], kind_free_text="Timelock.tla; real route builders, clients and checks"),
             dict(name="tx", path="engines/tx.py", serves_properties=["C01", "C03", "C08"], kind_free_text="TxShape.tla / SpendTx.tla; real validators and transaction builders"),
             dict(name="script", path="engines/script.py", serves_properties=["C02"], kind_free_text="Script.tla interpreter; btcd engine on the real script"),
-            dict(name="combo", path="engines/combo.py", serves_properties=["C01", "C04", "C05", "C08"], kind_free_text="joins the FSM-level part with the arithmetic / transaction part"),
+            dict(name="combo", path="engines/combo.py", serves_properties=["C01", "C04", "C05", "C08", "C14", "C26"], kind_free_text="joins the FSM-level part with the arithmetic / transaction part"),
             dict(name="watcher", path="engines/watcher.py", serves_properties=["C20"], kind_free_text="Watcher.tla; real RPC and Electrum watchers on a simulated chain"),
             dict(name="policy", path="engines/policy.py", serves_properties=["C25"], kind_free_text="Policy.tla; real policy.Policy on files"),
             dict(name="premium", path="engines/premium.py", serves_properties=["C27"], kind_free_text="Premium.tla; real premium.Setting on bbolt"),
             dict(name="peersync", path="engines/peersync.py", serves_properties=["C28", "C26"], kind_free_text="PeerSync.tla; real PeerSync/Store/poller"),
+            dict(name="record", path="engines/record.py", serves_properties=["C14"], kind_free_text="Record.tla (record codec + store state machine); real bbolt store round trips"),
             dict(name="locks", path="engines/locks.py", serves_properties=["C18", "C19"], kind_free_text="Locks.tla lock/program interpreter; real SwapService + real watchers under gate control; race detector"),
             dict(name="swapfsm", path="engines/swapfsm.py", serves_properties=sorted(k for k, v in CLAIMED.items() if v[0] == "swapfsm"),
                  kind_free_text="TLA+ design model of the swap FSMs (PeerSwap.tla) + observer (PeerSwapObs.tla); TLC export; harness/l1; trace validation"),
